@@ -41,7 +41,16 @@ type SpecVersionLabel struct {
 	N     int64  `json:"-"`
 }
 
+type SpecSeverity struct {
+	Name  string `json:"name"`
+	Const string `json:"const"`
+	Lo    int    `json:"lo"`
+	Hi    int    `json:"hi"`
+	N     int64  `json:"-"`
+}
+
 type SpecFamily struct {
+	Severity []SpecSeverity     `json:"severity"`
 	Alias    string             `json:"alias"`
 	Versions []SpecVersionLabel `json:"versions"`
 	Metrics  []*SpecMetric      `json:"metrics"`
@@ -111,6 +120,25 @@ func (u *Universe) loadSpecTables(specDir string) (*SpecTables, string, error) {
 			fmt.Fprintf(&sb, "(define-fun valid_%s_VER ((x Int)) Bool (or %s))\n", v, strings.Join(alts, " "))
 			fmt.Fprintf(&sb, "(define-fun code_%s_VER ((x Int)) String %s\"unknown\"%s)\n", v, strings.Join(pr, ""), strings.Repeat(")", len(pr)))
 			fmt.Fprintf(&sb, "(define-fun parse_%s_VER ((s String)) Int %s0%s)\n", v, strings.Join(pa, ""), strings.Repeat(")", len(pa)))
+		}
+		if len(f.Severity) > 0 {
+			var chain []string
+			for i := range f.Severity {
+				n, err := lookup(f.Severity[i].Const)
+				if err != nil {
+					return nil, "", err
+				}
+				f.Severity[i].N = n
+				fmt.Fprintf(&sb, "(define-fun %s_SEV_%s () Int %d)\n", v, f.Severity[i].Name, n)
+				chain = append(chain, fmt.Sprintf("(ite (and (<= %d k) (<= k %d)) %d ", f.Severity[i].Lo, f.Severity[i].Hi, n))
+			}
+			un, err := lookup("SeverityUnknown")
+			if err != nil {
+				return nil, "", err
+			}
+			fmt.Fprintf(&sb, "(define-fun %s_SEV_Unknown () Int %d)\n", v, un)
+			// severity of a score k/10 on the rating scale of the specification
+			fmt.Fprintf(&sb, "(define-fun %s_sev_of_k ((k Int)) Int %s%d%s)\n", v, strings.Join(chain, ""), un, strings.Repeat(")", len(chain)))
 		}
 		for _, m := range f.Metrics {
 			un, err := lookup(m.Unknown)
